@@ -32,6 +32,9 @@ def harnesses(tier):
             scenario_harness("flat-exits", Profile(
                 templates=("F2",), raises="free", crit_job="free", timeout="free", sd="free", sdt="free",
                 perm="id", top="pure", forever="free"), o, required_notes=("c13_bounded_phase",)),
+            scenario_harness("flat-exits-verbose", Profile(
+                templates=("F2",), timeout="free", sd="free", sdt="always", perm="id", top="free", verbose=True,
+                crit_job=False), o + [O.c04_verdict], required_notes=("c13_bounded_phase",)),
             scenario_harness("nested-exits", Profile(
                 templates=("N12",), raises="free", crit_job="free", crit_sched="free", timeout="free",
                 timeout_scope="top", perm="id", edges="none"), o),
